@@ -201,6 +201,59 @@ func TestC19(t *testing.T) {
 			}
 		}
 	}
+	// every payload length up to 300 (and around the powers of two above), all four flag combinations
+	lens := []int{}
+	for l := 0; l <= 300; l++ {
+		lens = append(lens, l)
+	}
+	for _, c := range []int{511, 512, 513, 1023, 1024, 1025, 4095, 4096, 4097, 16383, 16384, 16385} {
+		lens = append(lens, c)
+	}
+	for _, l := range lens {
+		for f := 0; f < 4; f++ {
+			gbnMsgCase(r, &gbn.PacketData{Seq: uint8(l), FinalChunk: f&1 != 0, IsPing: f&2 != 0, Payload: patterned(l, l)}, "gbn-msg-data-len")
+		}
+		msgValueCase(r, uint8(l), patterned(l, l+1), "msg-value-len")
+	}
+	// one MsgData object used for several messages (it is an exported type with an exported Payload):
+	// new payload of the same length, of another length, the caller's buffer overwritten in place,
+	// and an object that was filled by Deserialize before
+	for _, l := range []int{0, 1, 5, 11, 300} {
+		buf := patterned(l, 1)
+		m := mailbox.NewMsgData(7, buf)
+		reuse := func(step string, want []byte) {
+			ser, err := m.Serialize()
+			out := "err"
+			if err == nil {
+				back := mailbox.NewMsgData(0, nil)
+				if back.Deserialize(ser) == nil {
+					out = hx(back.Payload)
+				}
+			}
+			if out != hx(want) {
+				r.Violate("C19/msgdata-object-reuse", fmt.Sprintf("one MsgData object, %s: serialised and read back as %s, the payload set was %s", step, out, hx(want)),
+					map[string]interface{}{"len": l, "step": step})
+			}
+			r.Case(fmt.Sprintf("msg-reuse:%d:%s", l, step), true, "msg-object-reuse")
+		}
+		reuse("first use", buf)
+		p2 := patterned(l, 2)
+		m.Payload = p2
+		reuse("new payload slice of the same length", p2)
+		for i := range p2 {
+			p2[i] ^= 0xff
+		}
+		reuse("payload buffer overwritten in place", p2)
+		p3 := patterned(l+3, 3)
+		m.Payload = p3
+		reuse("payload of another length", p3)
+		wire, _ := mailbox.NewMsgData(7, patterned(l, 4)).Serialize()
+		if m.Deserialize(wire) == nil {
+			p5 := patterned(l, 5)
+			m.Payload = p5
+			reuse("after Deserialize, new payload of the received length", p5)
+		}
+	}
 	gbnMsgCase(r, &gbn.PacketFIN{}, "gbn-msg-fin")
 	gbnMsgCase(r, &gbn.PacketSYNACK{}, "gbn-msg-synack")
 	for _, l := range []int{15, 16, 255, 256, 1000, 65535, 65536, 65537} {
